@@ -180,3 +180,4 @@ class ChooseBounding:
                 and implies(user_def is None and not has_key(circuit._native_gates, default_name), type_is(result, GateDefinition) and result._name == default_name and len(result._parameters) == 0))
 
     raises_only = ()
+
